@@ -188,6 +188,7 @@ def run_world(rng, res, idx):
     nsteps = rng.randint(1, 4)
     spec = dict(model_seed=rng.randrange(10 ** 6), data_seed=rng.randrange(10 ** 6), batch=rng.randint(1, 4), cfg=cfg, history=[('train',)] * nsteps,
                 record=['D', 'layer_grads', 'factors'])
+    spec['readback_steps'] = sorted({nsteps - 1} | {t for t in range(nsteps) if rng.random() < 0.5})
     case = dict(idx=idx, kind='world', W=W, cfg=cfg, steps=nsteps)
     run = scenario.run(spec, W, seed=rng.randrange(10 ** 6), policy=simdist.POLICIES[idx % len(simdist.POLICIES)])
     if run.inconclusive:
@@ -208,12 +209,14 @@ def run_world(rng, res, idx):
         nus = []
         for r in range(W):
             rec = run.results[r]
+            if rec['factors'][st] is None:
+                continue
             res.count('world_nu_checks')
             out = check_step(res, case, cfg, rec['D'][st], rec['layer_grads'][st], rec['factors'][st], cfg['damping'][1], kl, lr, f'rank {r}, step {st} (k={cfg["k"]}, W={W})')
             if out is False:
                 return
             nus.append(out)
-        if nus[0] is not None and nus[0] < 0.9:
+        if nus and nus[0] is not None and nus[0] < 0.9:
             active = True
     if active:
         res.nontrivial.add(stable_hash('world', W, spec['model_seed'], cfg))
